@@ -30,3 +30,14 @@ pub use prelude::*;
 
 #[cfg(any(test, feature = "test_utils"))]
 pub mod test_utils;
+
+/// Types needed to implement [`IoEngine`] outside of this crate. Verification harness only.
+#[cfg(feature = "verif")]
+pub mod verif {
+    pub use crate::io::{
+        PAGE,
+        bytes::{IoB, IoBuf, IoBufMut, IoSlice, IoSliceMut, Raw},
+        device::{Partition, PartitionId},
+        engine::IoEngineBuildContext,
+    };
+}
